@@ -155,6 +155,15 @@ class RShell:
             self._w = w / np.sqrt(S)[:, :, None]
         return self._w
 
+    @property
+    def cont_norm(self):
+        """(M, L) contraction normalisation constants of the model: 1/sqrt(<f|f>) of the contraction
+        built from coefficient x primitive norm (what gbasis calls norm_cont, computed independently)."""
+        w = self.w
+        pn = self.primnorms()
+        k = int(np.argmax(np.abs(self.coeffs).min(axis=1)))
+        return np.asarray(w[:, :, k] / (self.coeffs.T[:, None, k].astype(LD) * pn[None, :, k]), dtype=float)
+
     def to_funcs(self):
         """matrix (nfunc, M*ncart) from normalised cartesian functions (segment-major) to functions"""
         if self.coord_type == "cartesian":
